@@ -14,7 +14,7 @@ import (
 
 // C08 — accepted lines are recorded in history exactly once.
 
-const c08Rule = "1-3 bound history sources (library in-memory, library file-backed, a recording Source of the harness that logs every Write) each with prior contents from a pool (empty, one entry, several, most recent entry equal to the line, equal up to whitespace, 499-1024 entries) x history-size in {unset, 0, 1, 2, |prior|, |prior|+1, 500} set through the inputrc NewShell loads x typed line in {blank, spaces only, text, text with leading/trailing blanks, multi-line through AcceptMultiline, multi-byte} x accept variant in {accept-line, accept-and-hold + second call, operate-and-get-next, accept-and-infer-next-history, interrupt C-c, end-of-file on an empty line, C-d on a non-empty line then accept}; oracle = list model per source on Len()/GetLine() before and after: error -> every source unchanged; replay-type accepts -> unchanged; otherwise per source independently: blank -> unchanged, equal (trimmed) to that source's last entry -> unchanged, positive limit reached -> unchanged, else exactly one new last entry equal to the line up to surrounding whitespace and nothing else changed; the recording source also bounds the number of Write calls; history-size 0 may mean unset or record-nothing but the same for all sources; non-trivial = non-blank line with >= 2 sources, or a configured limit, or a duplicate of a last entry, or a non-plain accept variant; distinct = hash of the case"
+const c08Rule = "1-3 bound history sources (library in-memory, library file-backed, a recording Source of the harness that logs every Write) each with prior contents from a pool (empty, one entry, several, most recent entry equal to the line, equal up to whitespace, 499-1024 entries) x history-size in {unset, 0, 1, 2, |prior|, |prior|+1, 500} set through the inputrc NewShell loads x typed line in {blank, spaces only, text, text with leading/trailing blanks, multi-line through AcceptMultiline, multi-byte} x accept variant in {accept-line, accept-and-hold + second call, operate-and-get-next, accept-and-infer-next-history, interrupt C-c, end-of-file on an empty line, C-d on a non-empty line then accept}, one case in three followed by 1-3 more calls on the same shell (line from a small pool, accept-line or interrupt); oracle = list model per source on Len()/GetLine() before and after: error -> every source unchanged; replay-type accepts -> unchanged; otherwise per source independently: blank -> unchanged, equal (trimmed) to that source's last entry -> unchanged, positive limit reached -> unchanged, else exactly one new last entry equal to the line up to surrounding whitespace and nothing else changed; the recording source also bounds the number of Write calls; history-size 0 may mean unset or record-nothing but the same for all sources; non-trivial = non-blank line with >= 2 sources, or a configured limit, or a duplicate of a last entry, or a non-plain accept variant; distinct = hash of the case"
 
 type C08Case struct {
 	Mode    string   `json:"mode"`
@@ -22,6 +22,14 @@ type C08Case struct {
 	Size    string   `json:"size"` // "" = unset
 	Line    string   `json:"line"` // typed (a "\n" is typed as backslash + CR under the multi-line rule)
 	Variant string   `json:"variant"`
+	// further Readline calls on the same shell: whatever the previous call left
+	// in the buffer is cleared, the line typed and accepted (or interrupted)
+	More []C08Next `json:"more,omitempty"`
+}
+
+type C08Next struct {
+	Line    string `json:"line"`
+	Variant string `json:"variant"` // accept-line | interrupt
 }
 
 type C08Src struct {
@@ -80,6 +88,15 @@ func genC08(t *rapid.T) *C08Case {
 
 	c.Size = rapid.SampledFrom([]string{"", "", "0", "1", "2", fmt.Sprint(maxPrior), fmt.Sprint(maxPrior + 1), "500"}).Draw(t, "size")
 
+	// several calls on the same shell, lines from a small pool so that a line is
+	// often equal to the one recorded just before
+	if c.Variant != "accept-and-hold" && rapid.IntRange(0, 2).Draw(t, "hasmore") == 0 {
+		for i := rapid.IntRange(1, 3).Draw(t, "nmore"); i > 0; i-- {
+			c.More = append(c.More, C08Next{Line: rapid.SampledFrom([]string{c.Line, c.Line, "text", "other", " text", "", "ls"}).Draw(t, "moreline"),
+				Variant: rapid.SampledFrom([]string{"accept-line", "accept-line", "accept-line", "interrupt"}).Draw(t, "morevariant")})
+		}
+	}
+
 	return c
 }
 
@@ -93,13 +110,13 @@ func runC08(h *Harness, child *rig.Child, c *C08Case) (*Failure, bool) {
 		vars = append(vars, [2]string{"history-size", c.Size})
 	}
 
-	calls := 1
+	calls := 1 + len(c.More)
 	if c.Variant == "accept-and-hold" {
 		calls = 2
 	}
 
 	spec := &proto.Spec{Calls: calls, Inputrc: renderVars(c.Mode, vars), Multiline: "backslash", Prompt: &proto.PromptSpec{Primary: "> "},
-		Binds: e.bindNames([]string{"accept-line", "accept-and-hold", "operate-and-get-next", "accept-and-infer-next-history", "end-of-file"}, mainKeymaps...)}
+		Binds: e.bindNames([]string{"accept-line", "accept-and-hold", "operate-and-get-next", "accept-and-infer-next-history", "end-of-file", "kill-whole-line", "end-of-history"}, mainKeymaps...)}
 
 	for i, s := range c.Sources {
 		hs := proto.HistSpec{Kind: s.Kind, Name: fmt.Sprintf("src%d", i), Entries: s.Prior}
@@ -313,6 +330,78 @@ func runC08(h *Harness, child *rig.Child, c *C08Case) (*Failure, bool) {
 		if f := check("call 2 (accept-line of the held line)", ret.Hist, d.st.Ev.Hist, d.st.Ev.Writes, d.st.Ev.Line, false); f != nil {
 			return f, true
 		}
+	}
+
+	// further calls on the same shell
+	prev := ret.Hist
+
+	for i, nx := range c.More {
+		st := d.s.Next()
+		if f := stopFailure(st); f != nil {
+			return f, true
+		}
+
+		if st.Kind != "park" {
+			return &Failure{Clause: "infra", Msg: "no further call: " + st.String(), Infra: true}, true
+		}
+
+		d.st = st
+		d.parks = append(d.parks, st.Ev)
+
+		// a replay-type accept leaves a history line in the buffer: go back to the
+		// line being typed and empty it
+		if st.Ev.Line != "" {
+			d.send([]byte(e.key("end-of-history")))
+			d.send([]byte(e.key("kill-whole-line")))
+
+			if d.fail != nil {
+				return d.fail, true
+			}
+
+			if d.st.Kind != "park" || d.st.Ev.Line != "" {
+				return nil, true // cannot get an empty line back: nothing to judge
+			}
+		}
+
+		for _, r := range nx.Line {
+			if r == '\n' {
+				d.sendAll("\\", "\r")
+				continue
+			}
+
+			d.send([]byte(string(r)))
+		}
+
+		if d.fail != nil {
+			return d.fail, true
+		}
+
+		if nx.Variant == "interrupt" {
+			d.send([]byte("\x03"))
+		} else {
+			d.send([]byte(e.key("accept-line")))
+		}
+
+		if d.fail != nil {
+			return d.fail, true
+		}
+
+		if d.st.Kind != "return" {
+			return failf("no-return", "c08:no-return", "call %d (%s on %q) did not return: %s", i+2, nx.Variant, nx.Line, d.st), true
+		}
+
+		r2 := d.st.Ev
+
+		if (nx.Variant == "interrupt") != r2.HasErr {
+			return failf("error", "c08:error-mismatch", "call %d (%s on %q): returned error %q", i+2, nx.Variant, nx.Line, r2.Err), true
+		}
+
+		if f := check(fmt.Sprintf("call %d (%s after %s)", i+2, nx.Variant, c.Variant), prev, r2.Hist, r2.Writes, r2.Line, r2.HasErr); f != nil {
+			f.Sig += ":later-call"
+			return f, true
+		}
+
+		prev = r2.Hist
 	}
 
 	nonblank := strings.TrimSpace(line) != ""
